@@ -219,9 +219,11 @@ class Driver:
 
 
 def load_known() -> List[dict]:
-    if not os.path.exists(KNOWN):
-        return []
-    return json.load(open(KNOWN)).get("findings", [])
+    """known_findings.json (committed, never written at run time)."""
+    out: List[dict] = []
+    if os.path.exists(KNOWN):
+        out.extend(json.load(open(KNOWN)).get("findings", []))
+    return out
 
 
 def write_replay(pid: str, payload: dict) -> str:
